@@ -220,3 +220,47 @@ func VerifC13SparseSigs() {
 	check("c13.sparse", d, buf)
 	rt.Reach("c13.sparse")
 }
+
+// VerifC13Zeros: every decoder on buffers of length 0..maxLen that are zero
+// except for 3 arbitrary bytes at an arbitrary offset (inputs longer than the
+// fully symbolic buffers of VerifC13Buffer: zero counts, zero dimensions and
+// zero lengths deep inside composite values).
+func VerifC13Zeros() {
+	ds := Decoders()
+	d := ds[rt.Choice(len(ds))]
+	l := rt.Choice(rt.Bound("maxLen", 24) + 1)
+	buf := make([]byte, l)
+	if l >= 3 {
+		o := rt.Choice(l - 2)
+		copy(buf[o:], rt.NondetBytes(3))
+	}
+	check("c13.zeros", d, buf)
+	rt.Reach("c13.zeros")
+}
+
+// VerifC13BigIntLong: the big integer decoder with a declared length around
+// and above the documented limit and the whole payload present (leading zero
+// bytes, arbitrary low bytes): lengths above the limit are refused whatever
+// the value is.
+func VerifC13BigIntLong() {
+	l := []int{0, 1, 127, 128, 129, 130, 200, 255}[rt.Choice(8)]
+	buf := make([]byte, 1+l+2)
+	buf[0] = byte(l)
+	low := rt.NondetBytes(4)
+	if l >= 4 {
+		copy(buf[1+l-4:], low)
+	}
+	if l >= 5 && rt.NondetBool() {
+		buf[1] = 1 + rt.NondetU8()/2 // or a non-zero leading byte
+	}
+	var v *big.Int
+	var err error
+	r := bytes.NewReader(buf)
+	panicked := rt.Try(func() { err = perunio.Decode(r, &v) })
+	rt.Reach("c13.bigint-long")
+	rt.Assert("c13.bigint-long.nopanic", !panicked)
+	rt.Assert("c13.bigint-long.limit", panicked || (err == nil) == (l <= perunio.MaxBigIntLength))
+	if !panicked && err == nil {
+		rt.Assert("c13.bigint-long.consumed", r.Len() == 2)
+	}
+}
